@@ -262,7 +262,9 @@ def _order_insensitive_body(body) -> bool:
 # ------------------------------------------------------------------------------------------ C03: unpredictable sources
 SOURCES = {"uuid4": "uuid.uuid4", "uuid1": "uuid.uuid1", "now": "datetime.now", "utcnow": "datetime.utcnow", "time": "time.time",
            "perf_counter": "time.perf_counter", "monotonic": "time.monotonic", "default_rng": "numpy.random.default_rng",
-           "token_hex": "secrets.token_hex", "urandom": "os.urandom", "getpid": "os.getpid"}
+           "token_hex": "secrets.token_hex", "token_urlsafe": "secrets.token_urlsafe", "token_bytes": "secrets.token_bytes",
+           "randbits": "secrets.randbits", "randbelow": "secrets.randbelow", "SystemRandom": "random.SystemRandom",
+           "urandom": "os.urandom", "getpid": "os.getpid"}
 
 
 def unpredictable_sources(allow: Dict[str, str]) -> List[dict]:
